@@ -14,6 +14,7 @@ def run(ctx, rep):
     pairing.rule_contextmanager_cleanup(ctx, rep, "C13-R8", where=lambda f: f.module.name in ("parser", "lexer"), what=" of the parser")
     pairing.rule_saved_state_restored(ctx, rep, "C13-R9")
     frontend.rule_delimiters_do_not_overlap(ctx, rep, "C13-R10")
+    textparse.rule_host_parser_text_admitted(ctx, rep, "C13-R11", modules=("lexer", "parser"), floor=3)
     rep.undecided += [
         "layout independence and print/parse round trip over all token sequences (no printer exists in the repo; generative/differential property)",
         "alternative literal spellings denote the same value (value property)",
